@@ -158,3 +158,22 @@ Proof.
   - apply parse_all_ok. exact HF.
   - apply parse_all_err. exact HF.
 Qed.
+
+(** * Defaults reach every depth of an argument literal *)
+From Thunder Require Import Args.ProofsSubst.
+
+(** A variable declared with a default and left unsupplied (or supplied null) is bound, after Parse's
+    first step, to the JSON of its default; and a variable bound to the JSON of a sub-literal can stand
+    for that sub-literal at any depth - inside object literals, lists inside objects, objects inside
+    lists - without changing what valueToJson produces. *)
+Theorem default_reaches_every_depth defs vars vars' d l0 :
+  NoDup (map vd_name defs) -> apply_defaults defs vars vars = Ok vars' ->
+  In d defs -> vd_default d = Some l0 -> non_null (lookup (vd_name d) vars) = false ->
+  exists j, vtj [] l0 = Ok j /\ lookup (vd_name d) vars' = Some j /\
+    forall l l', lsub vars' l l' -> vtj vars' l' = vtj vars' l.
+Proof.
+  intros Hnd HA Hd Hl Hn.
+  destruct (default_rule defs vars vars' Hnd HA) as [H1 _].
+  destruct (H1 d l0 Hd Hl) as (_ & _ & H3). destruct (H3 Hn) as (j & Hj & Hlk).
+  exists j. split; [exact Hj|]. split; [exact Hlk|]. apply lsub_vtj.
+Qed.
